@@ -407,7 +407,7 @@ func genPool(h *rt.H, w int) []string {
 	if h.Intn(5) == 0 {
 		n += 10 + h.Intn(15)
 	}
-	for len(pool) < n {
+	for tries := 0; len(pool) < n && tries < 40*n; tries++ { // bounded: few seeds may not yield n distinct prefixes
 		s := rt.Pick(h, seeds)
 		var l int
 		if h.Intn(4) == 0 {
